@@ -35,7 +35,9 @@ typename Enable_If<Is_Native_Or_Checked<T>::value, void>::type
 ascii_dump(std::ostream& s, const T& t) {
   if (std::numeric_limits<T>::is_exact) {
     // An exact data type: pretty printer is accurate.
-    s << t;
+    // Note: use the checked output function so that character-sized
+    // integers are printed as numbers (not as characters).
+    output(s, t, Numeric_Format(), ROUND_IGNORE);
   }
   else {
     // An inexact data type (probably floating point):
@@ -57,8 +59,8 @@ typename Enable_If<Is_Native_Or_Checked<T>::value, bool>::type
 ascii_load(std::istream& s, T& t) {
   if (std::numeric_limits<T>::is_exact) {
     // An exact data type: input from pretty printed version is accurate.
-    s >> t;
-    return !s.fail();
+    const Result r = input(t, s, ROUND_CHECK);
+    return result_relation(r) == VR_EQ;
   }
   else {
     // An inexact data type (probably floating point):
